@@ -514,6 +514,18 @@ func runLockGuard(c *core.Ctx) {
 	}
 	for n := range guardTable {
 		if !seen[n] {
+			// the type may have been replaced by a differently named and shaped one (its state moved into a
+			// new value with its own mutex): then the inferred rows (above) carry the obligation. Without any
+			// new mutex-bearing struct the state went somewhere unsynchronised, or the anchor is simply lost.
+			if len(autoGuardTable(c)) > 0 {
+				var succ []string
+				for k := range autoGuardTable(c) {
+					succ = append(succ, k)
+				}
+				sort.Strings(succ)
+				c.Trivial(guardProps(n), n, "guard-table", "-", fmt.Sprintf("guarded struct %s of the confirmed table no longer exists; mutex-bearing structs the table does not know, checked under inferred rows: %v", n, succ))
+				continue
+			}
 			c.Unknown(guardProps(n), n, "guard-table", "-", "guarded struct "+n+" of the confirmed table no longer exists (or lost its mutex): anchor unresolved")
 		}
 	}
